@@ -203,14 +203,20 @@ pub enum Discipline {
     TakeExact,
     /// pulls until `None` (DMA-style), at most w*h + DRAIN_SLACK
     DrainBounded,
+    /// a clipping driver: only the visible part of the area is transferred; the colours of hidden
+    /// pixels are discarded with `Iterator::nth` (one call from the end of a visible row to the start
+    /// of the next, i.e. across the row boundary), nothing is pulled after the last visible pixel
+    SkipHidden,
 }
 
-pub const DISCIPLINES: [Discipline; 4] = [
+pub const DISCIPLINES: [Discipline; 5] = [
     Discipline::ZipPointsFirst,
     Discipline::ZipColoursFirst,
     Discipline::TakeExact,
     Discipline::DrainBounded,
+    Discipline::SkipHidden,
 ];
+pub const N_DISC: u32 = 5;
 
 pub const DRAIN_SLACK: u64 = 160;
 
@@ -221,6 +227,7 @@ impl Discipline {
             Discipline::ZipColoursFirst => "ZipColoursFirst",
             Discipline::TakeExact => "TakeExact",
             Discipline::DrainBounded => "DrainBounded",
+            Discipline::SkipHidden => "SkipHidden",
         }
     }
     pub fn index(self) -> u32 {
@@ -742,6 +749,47 @@ impl<C: SimColor> SimDisplay<C> {
         let (w, h) = (ra.w().max(0), ra.h().max(0));
         let n = if ra.is_empty() { 0u64 } else { (w * h) as u64 };
         let mut pulled = 0u64;
+        if st.disc == Discipline::SkipHidden {
+            let vis = ra.intersect(&st.rb);
+            if vis.is_empty() {
+                return Ok(());
+            }
+            let mut consumed = 0u64; // colours taken from the stream so far, skipped ones included
+            'rows: for y in vis.y0..vis.y1 {
+                let row_start = ((y - ra.y0) * w + (vis.x0 - ra.x0)) as u64;
+                let skip = row_start - consumed;
+                if skip > 0 {
+                    if colors.nth(skip as usize - 1).is_none() {
+                        if st.cur_valid {
+                            st.calls[st.cur].stream_ended = true;
+                        }
+                        break 'rows;
+                    }
+                    consumed += skip;
+                }
+                for x in vis.x0..vis.x1 {
+                    if let Some(e) = st.fail_at_item(pulled) {
+                        return Err(e);
+                    }
+                    match colors.next() {
+                        None => {
+                            if st.cur_valid {
+                                st.calls[st.cur].stream_ended = true;
+                            }
+                            break 'rows;
+                        }
+                        Some(c) => {
+                            let c = c.to_u32();
+                            pulled += 1;
+                            consumed += 1;
+                            st.note_item(x as i32, y as i32, c);
+                            st.store(x, y, c);
+                        }
+                    }
+                }
+            }
+            return Ok(());
+        }
         // the points of the area in row-major order, own loop
         let mut idx = 0u64;
         loop {
@@ -751,6 +799,7 @@ impl<C: SimColor> SimDisplay<C> {
                 Discipline::ZipPointsFirst | Discipline::TakeExact => have_point,
                 Discipline::ZipColoursFirst => true,
                 Discipline::DrainBounded => pulled < n + DRAIN_SLACK,
+                Discipline::SkipHidden => unreachable!(),
             };
             if !pull {
                 break;
